@@ -137,7 +137,7 @@ def required_null(d, v, ctx):
         return required_null(d[1], v, ctx)
     if k in ("union", "pep604", "tvconstr"):
         return any(ref.conforms(m, v, ctx) and required_null(m, v, ctx) for m in d[1:])
-    if k in ("list", "seq", "mutseq", "tuplevar", "deque", "set", "frozenset", "abcset", "mutset", "pep585list"):
+    if k in ("list", "seq", "mutseq", "tuplevar", "deque", "set", "frozenset", "abcset", "mutset", "pep585list", "barelist"):
         return any(required_null(d[1], x, ctx) for x in v)
     if k in ("tuple", "pep585tuple"):
         return any(required_null(e, x, ctx) for e, x in zip(d[1:], v))
@@ -146,7 +146,7 @@ def required_null(d, v, ctx):
         n = len(v) - len(suf)
         return (any(required_null(e, x, ctx) for e, x in zip(pre, v)) or any(required_null(mid, x, ctx) for x in v[len(pre):n])
                 or any(required_null(e, x, ctx) for e, x in zip(suf, v[n:])))
-    if k in ("dict", "mapping", "mutmapping", "ordered", "defaultdict", "mproxy", "pep585dict"):
+    if k in ("dict", "mapping", "mutmapping", "ordered", "defaultdict", "mproxy", "pep585dict", "baredict"):
         return any(required_null(d[2], x, ctx) for x in v.values())
     if k == "chain":
         return any(required_null(d[2], x, ctx) for m in v.maps for x in m.values())
